@@ -19,3 +19,22 @@ elab "#audit " ns:ident : command => do
     let axs ← Lean.collectAxioms n
     let axs := axs.qsort (fun a b => a.toString < b.toString)
     logInfo m!"AUDIT {n} [{", ".intercalate (axs.toList.map toString)}]"
+
+/-- `#inventory Ns`: like `#audit`, and also prints the statement of each theorem (one line). -/
+elab "#inventory " ns:ident : command => do
+  let env ← getEnv
+  let pre := ns.getId
+  let mut names : Array Name := #[]
+  for (n, ci) in env.constants.toList do
+    if pre.isPrefixOf n && !n.isInternal then
+      match ci with
+      | .thmInfo _ => names := names.push n
+      | _ => pure ()
+  let sorted := names.qsort (fun a b => a.toString < b.toString)
+  for n in sorted do
+    let axs ← Lean.collectAxioms n
+    let axs := axs.qsort (fun a b => a.toString < b.toString)
+    let some ci := env.find? n | continue
+    let fmt ← liftTermElabM <| Lean.Meta.ppExpr ci.type
+    let s := (fmt.pretty 100000).replace "\n" " "
+    logInfo m!"INV {n} [{", ".intercalate (axs.toList.map toString)}] :: {s}"
